@@ -77,6 +77,14 @@ def run(res):
             for s in nodes:
                 K2.labels(s).add('zz_%s' % s)
             wrong = [s for s in nodes if set(K2.labels(s)) != set(L.get(s, [])) | {'zz_%s' % s}]
+            # ... and what is computed afterwards follows the edit
+            for how, K3 in (('clone()', K2.clone()), ('get_substructure(all states)', K2.get_substructure(set(nodes)))):
+                stale = [s for s in nodes if set(K3.labels(s)) != set(K2.labels(s))]
+                if stale and not wrong:
+                    res.violation('%s of a %s whose labels were edited in place has labels %s at state %r instead of %s'
+                                  % (how, what, sorted(K3.labels(stale[0])), stale[0], sorted(K2.labels(stale[0]))),
+                                  {'S': S, 'S0': S0, 'R': rs, 'L': L,
+                                   'history': ['K = Kripke(S, S0, R, L)', 'for s in states: K.labels(s).add("zz_%s" % s)', 'K.' + how]})
             if wrong:
                 res.violation('in a %s, labels(s).add(x) on each state in turn leaves state %r with %s: label sets are shared '
                               'between states' % (what, wrong[0], sorted(K2.labels(wrong[0]))),
